@@ -54,6 +54,10 @@ from harness.pyprelude import PreludeKernels
 from vlib.core import Check, Stream, b01, hs, line
 
 TEXT_ALPHA = list("abcxyzABZ019") + ["é", "ü", "日", "😀", " ", ";", "?", "#", "%", "&", "=", "+", "@", ":", "!", "$", "'", "(", ")", "*", ",", "~", ".", "-", "_", "\\", '"', "<", ">", "|", "[", "]", "{", "}", "^", "`", "%41", "\t"]
+# text that is not NFC-normal: combining marks (compose with a preceding letter), conjoining Hangul jamo (L + V),
+# singletons whose NFC form is another code point (ANGSTROM SIGN, OHM SIGN, a CJK compatibility ideograph)
+TEXT_ALPHA += ["\u0301", "\u030a", "\u0308", "e", "A", "\u1100", "\u1161", "\u212b", "\u2126", "\uf900"]
+HOST_VALUES = ["Alice", "bob", "API-2", "Docs", "xY", "WWW", "a1"]
 
 
 # path-converter values (canonical domain: multi-segment, not starting or ending with '/') whose interior is
@@ -440,6 +444,10 @@ class BuildMatchStream(Stream):
         {"cfg": mk_cfg(), "rules": [mk_rule(toks_of("/p/<string:s>/<path:rest>"), "p")], "mounts": {}, "adapter": mk_adapter(), "endpoint": "p", "values": {"s": ["s", "a b;?#%é"], "rest": ["s", "x/y z/%2F"]}, "extra": {}, "method": None, "fe": False},
         {"cfg": mk_cfg(), "rules": [mk_rule(toks_of("/n/<int(fixed_digits=3, signed=True):i>/<float(signed=True):f>"), "n")], "mounts": {}, "adapter": mk_adapter(), "endpoint": "n", "values": {"i": ["i", -5], "f": ["f", "-12.25"]}, "extra": {}, "method": None, "fe": False},
         {"cfg": mk_cfg(), "rules": [mk_rule(toks_of("/blog/entry/<slug>"), "blog/show", dom=[["L", "api"]])], "mounts": {"0": {"prefix": "/blog", "subdomain": True}}, "adapter": mk_adapter(sub=""), "endpoint": "blog/show", "values": {"slug": ["s", "hello world"]}, "extra": {}, "method": None, "fe": False},
+        # values that are not NFC-normal (seeded change C04-e1) and mixed-case values in the subdomain part (C04-e2)
+        {"cfg": mk_cfg(), "rules": [mk_rule(toks_of("/w/<string:s>/<path:p>"), "w")], "mounts": {}, "adapter": mk_adapter(), "endpoint": "w", "values": {"s": ["s", "cafe\u0301"], "p": ["s", "A\u030angstro\u0308m/\u1100\u1161/\u212b"]}, "extra": {}, "method": None, "fe": False},
+        {"cfg": mk_cfg(), "rules": [mk_rule(toks_of("/home"), "home", dom=[["V", ["s", 1, None, None], "user"]])], "mounts": {}, "adapter": mk_adapter(sub=""), "endpoint": "home", "values": {"user": ["s", "Alice"]}, "extra": {}, "method": None, "fe": False},
+        {"cfg": mk_cfg(), "rules": [mk_rule(toks_of("/home"), "home", dom=[["V", ["a", "Docs", "api"], "user"]])], "mounts": {"0": {"subdomain": True}}, "adapter": mk_adapter(sub="api"), "endpoint": "home", "values": {"user": ["s", "Docs"]}, "extra": {}, "method": None, "fe": True},
         # rule factories expanded by the model: EndpointPrefix(Submount(RuleTemplate(...))), a dropped merge_slashes=False
         {"cfg": mk_cfg(), "rules": [mk_rule(toks_of("/blog/entry/<slug>"), "blog/show")], "mounts": {},
          "factories": {"0": {"inner": mk_rule(toks_of("/$kind/<slug>"), "$ep", merge=False), "wraps": [["T", {"kind": "entry", "ep": "show"}], ["M", toks_of("/blog/")], ["E", "blog/"]]}},
@@ -476,8 +484,10 @@ class BuildMatchStream(Stream):
                 r = gen_rule04(rng, i, names[i])
                 if hm:
                     r["dom"] = [["L", rng.choice(["example.org", "api.example.org"])]]
-                elif rng.random() < 0.25:
-                    r["dom"] = [["L", "api"]]
+                elif rng.random() < 0.3:
+                    # a literal subdomain rule, or one with a converter (values with upper-case letters: the host
+                    # part of an external URL must carry them as given)
+                    r["dom"] = rng.choice([[["L", "api"]], [["L", "api"]], [["V", ["s", 1, None, None], "user"]], [["V", ["a", "Docs", "api", "X1"], "user"]], [["L", "u-"], ["V", ["s", 1, None, None], "user"]]])
                     if rng.random() < 0.5:
                         mounts.setdefault(str(len(rules)), {})["subdomain"] = True
                 if rng.random() < 0.2 and len(r["toks"]) > 2 and r["toks"][2] == "/":
@@ -526,6 +536,8 @@ class BuildMatchStream(Stream):
                 if name in target["defaults"]:
                     continue
                 values[name] = canonical_value(rng, c)
+            for name, c in [(t[2], t[1]) for t in (target["dom"] or []) if t != "/" and t[0] == "V"]:
+                values[name] = ["s", rng.choice(c[1:] if c[0] == "a" else HOST_VALUES)]
             # sometimes ask for the defaults rule by giving the default value explicitly
             for o in rules:
                 if o["endpoint"] == target["endpoint"] and o["defaults"] and rng.random() < 0.5:
@@ -947,8 +959,8 @@ class BuildScheduleStream(ScheduleStream):
 
 CHECK = Check(
     prop="C04",
-    gen=["Routing", "RoutingSamples", "PyFns_Routing", "RoutingLock", "RoutingGlue"],
-    modules=["WzVerif.Props.C04", "WzVerif.Props.C04T", "WzVerif.Props.C03L"],
+    gen=["Routing", "RoutingSamples", "PyFns_Routing", "RoutingLock", "RoutingGlue", "PyFns_RoutingUrl"],
+    modules=["WzVerif.Props.C04", "WzVerif.Props.C04T", "WzVerif.Props.C03L", "WzVerif.Props.C12T"],
     streams=[BuildMatchStream(), ConvStream(), PreludeKernels(), BuildScheduleStream()],
     assumptions=[
         "round 3: BaseConverter.to_python / to_url (str values; urllib's quote = the routing model's quote, the safe= literal pinned against pathSafe), UnicodeConverter.__init__ (the regex text), AnyConverter.__init__ / to_url (re.escape = the model's reEscape over the regenerated special set; set(items) as a duplicate-free list), NumberConverter.__init__ and the signed_regex property are regenerated from the source as well (Gen/PyFns_Routing.lean) and proved equal to the converter model (Conv.regexText, toPython, toUrl) for all inputs (Props/C04T, proofs in Lemmas/PyFnsEq_Conv.lean)",
